@@ -37,6 +37,9 @@ func c02catalogue() []c02elem {
 		{`<message id='m3'><a><b><c><d><message/><body>deep</body></d></c></b></a> text </message>`, "stanza.Message", "m3", "", "", ""},
 		{`<message id='m4' type='error'><error type='cancel' code='503'><service-unavailable xmlns='urn:ietf:params:xml:ns:xmpp-stanzas'/><text xmlns='urn:ietf:params:xml:ns:xmpp-stanzas'>t</text></error></message>`, "stanza.Message", "m4", "", "", "error"},
 		{`<message/>`, "stanza.Message", "", "", "", ""},
+		{`<message id='m5' to='a@b' from='c@d' type='chat' xmlns:from='urn:evil' xmlns:x='urn:y' x:to='zz' x:id='no' x:type='error'/>`, "stanza.Message", "m5", "c@d", "a@b", "chat"},
+		{`<iq id='i5' type='get' to='a@b' xmlns:x='urn:y' x:id='no' x:type='result' x:to='zz' x:from='yy'/>`, "*stanza.IQ", "i5", "", "a@b", "get"},
+		{`<presence id='p5' from='r@s/t' xmlns:x='urn:y' x:from='evil' x:type='unavailable'/>`, "stanza.Presence", "p5", "r@s/t", "", ""},
 		{`<presence id='p1' from='r@s/t'><show>away</show><status>s</status><priority>3</priority></presence>`, "stanza.Presence", "p1", "r@s/t", "", ""},
 		{`<presence id='p2' type='unavailable'><x xmlns='urn:none'><presence id='inner'/><show>xa</show></x></presence>`, "stanza.Presence", "p2", "", "", "unavailable"},
 		{`<presence><c xmlns='http://jabber.org/protocol/caps' hash='sha-1' node='n' ver='v'/></presence>`, "stanza.Presence", "", "", "", ""},
